@@ -34,6 +34,4 @@ pub fn add_signed_mul<'a>(c: &mut [Word], sign: Sign, a: &'a [Word], b: &'a [Wor
 { unimplemented!() }
 }
 
-/// core: bool -> SignedWord through `Into` (the blanket impl forwards to `From<bool>`: 0 / 1)
-pub assume_specification [<bool as core::convert::Into<@SW@>>::into] (b: bool) -> (r: @SW@)
-    ensures r as int == b2i(b);
+// (`bool.into()` for SignedWord: vstd's `Into::into` forwards to the `From<bool>` specification of lib/prelude.rs)
